@@ -190,7 +190,8 @@ def run_ident_alphabet(prog, tier, repo):
                     parses.append(bi)
         cfg = cfg_of(b)
         key = f'keyword-gate:{b.name}'
-        if parses and all(cfg.nodes_dominate(parses, a) for a in applies):
+        implied = _bool_implied_edges(b, cfg, parses) if parses else []
+        if parses and all(cfg.nodes_dominate(parses, a) or (implied and cfg.edges_dominate(implied, a)) for a in applies):
             res.ok(key, b.loc(), 'the new name is read back by the parser before the renaming is applied')
         else:
             res.violation(key, b.loc(b.blocks[applies[0]].term[7]), f'{b.name} applies a renaming without having the parser read the new '
@@ -229,4 +230,52 @@ def _reads_name_back(prog, b):
     if not applies or not parses:
         return False
     g = _cfg.cfg_of(b)
-    return all(g.nodes_dominate(parses, a) for a in applies)
+    implied = _bool_implied_edges(b, g, parses)
+    return all(g.nodes_dominate(parses, a) or (implied and g.edges_dominate(implied, a)) for a in applies)
+
+
+def _bool_implied_edges(b, cfg, blocks):
+    """Edges of switches on a boolean local whose value can only be that of the edge if control passed through `blocks`: every
+    assignment to the local that may produce the edge's value is dominated by them (`fn valid(..) -> bool { if !shape { return
+    false } parse..; ok }` inlined into `if !valid(..) { return None }`)."""
+    from ..cfg import def_sites
+    defs = def_sites(b)
+    out = []
+
+    def origin_defs(l, depth=0, seen=None):
+        seen = seen if seen is not None else set()
+        if l in seen or depth > 6:
+            return None
+        seen.add(l)
+        res_ = []
+        for d in defs.get(l, []):
+            if b.blocks[d[0]].cleanup:
+                continue
+            if d[1] != 'term' and d[2][0] == 'use' and d[2][1][0] in ('c', 'm') and not d[2][1][1].proj:
+                sub = origin_defs(d[2][1][1].local, depth + 1, seen)
+                if sub is None:
+                    return None
+                res_ += sub
+            elif d[1] != 'term' and d[2][0] == 'un' and d[2][1] == 'Not':
+                return None       # negations flip the meaning: keep it simple, do not look through them
+            else:
+                res_.append(d)
+        return res_
+    for bi, bl in enumerate(b.blocks):
+        t = bl.term
+        if bl.cleanup or t[0] != 'switch' or t[1][0] not in ('c', 'm') or t[1][1].proj or b.locals[t[1][1].local].s != 'bool':
+            continue
+        ds = origin_defs(t[1][1].local)
+        if not ds or len(ds) < 2:
+            continue
+        for want, edges in ((1, [(bi, t[3])] + [(bi, tg) for v, tg in t[2] if v != 0]), (0, [(bi, tg) for v, tg in t[2] if v == 0])):
+            may = []
+            for d in ds:
+                if d[1] != 'term' and d[2][0] == 'use' and d[2][1][0] == 'k' and d[2][1][1].i is not None:
+                    if (1 if d[2][1][1].i else 0) == want:
+                        may.append(d[0])
+                else:
+                    may.append(d[0])
+            if may and all(cfg.nodes_dominate(blocks, x) for x in may):
+                out += edges
+    return out
